@@ -223,10 +223,13 @@ def check_b(case):
 SHORT = ["é", "€", "\U0001F600", "aé", "é€", "{\"é\":\"€\"}", "\U0001F600\U0001F600", "[\"\U0001F600é\"]", "aé€b", "\"\u00e9\u20ac\U0001F600\"", "ab", ""]
 
 
+LONGER = ["{\"é\":\"€\U0001F600\"}", "[\"\U0001F600é€\",1]", "\"ééééééé\""]
+
+
 def cases_c(tier):
-    for i, s in enumerate(SHORT):
+    for i, s in enumerate(SHORT + (LONGER if tier == "thorough" else [])):
         b = s.encode("utf-8")
-        if len(b) > 14:
+        if len(b) > (17 if tier == "thorough" else 14):
             continue
         for comp in gen.compositions(len(b)):
             yield (i, tuple(comp))
@@ -234,7 +237,8 @@ def cases_c(tier):
 
 def check_c(case):
     i, comp = case
-    b = SHORT[i].encode("utf-8")
+    text0 = (SHORT + LONGER)[i]
+    b = text0.encode("utf-8")
     out = Out(cls="parser/%d-pieces" % len(comp))
     parser, target = J.Transport.getparser()
     try:
@@ -244,7 +248,7 @@ def check_c(case):
         text = target.close()
     except Exception as ex:
         return out.bad("C17/response-parser-raises-%s" % type(ex).__name__, "%r cut as %r raised %r" % (b, comp, ex))
-    if text != SHORT[i]:
+    if text != text0:
         out.bad("C17/response-reassembly-depends-on-chunking", "%r cut as %r reassembled as %r" % (b, comp, text))
     return out
 
@@ -523,7 +527,7 @@ META = {
     "delivery patterns; server-read: all compositions (<=2 cuts for longer bodies) of 6 bodies as short reads, plus a 10 MiB+1 body whose last character "
     "straddles the read chunk; reply-framing: 7 results x 2 content types x ASCII-escaping/raw UTF-8 backend x {HTTP result, error, notification, CGI result, "
     "CGI error}; every case non-trivial",
-    "bounds": {"quick": {"composition_bytes": 14, "cuts_beyond": 2}, "thorough": {"composition_bytes": 14, "cuts_beyond": 2}},
+    "bounds": {"quick": {"composition_bytes": 14, "cuts_beyond": 2}, "thorough": {"composition_bytes": 17, "cuts_beyond": 2}},
     "assumptions": [
         "short reads reach do_POST only through an unbuffered rfile (the default buffered rfile never returns them); both are driven",
         "URLs contain no ';' parameters, '#' fragments or raw non-ASCII characters (property domain)",
